@@ -208,6 +208,9 @@ def run(ctx, rep):
                     if (V in minlen_by_V or is_field(strip_ids(V), "global_offsets")) and is_field(i, "0") and i[1][0] == "binop" \
                             and i[1][1].startswith("Sub") and call_is(i[1][2], r"Vec::<T, A>::len$") and is_const(i[1][3]):
                         offs_k = (int(i[1][3][1]), minlen_by_V.get(V, global_min))
+                    elif (V in minlen_by_V or is_field(strip_ids(V), "global_offsets")) and is_const(i):
+                        # offsets[c]: needs at least c + 1 elements
+                        offs_k = (int(i[1]) + 1, minlen_by_V.get(V, global_min))
         if sig is None or sid in seen_sites:
             continue
         seen_sites.add(sid)
